@@ -1226,6 +1226,14 @@ def ep_fixtures():
     add("reply", ["reply"], "thorough")
     add("plain", [], "quick", migrate=False, reply=False)
     add("exec_sudo", ["exec", "sudo"], "thorough")
+    # thorough only, own feature group: every PAIR of overridden kinds, and a few larger subsets
+    import itertools
+    for a, b in itertools.combinations(EP_KINDS, 2):
+        if (a, b) == ("exec", "sudo"):
+            continue
+        fxs.append(dict(mod="fx_ep_%s_%s" % (a, b), feature="g_ep2", contract="Ep" + a.title() + b.title(), override=[a, b], tier="thorough"))
+    for sub in (["instantiate", "exec", "query"], ["sudo", "migrate", "reply"], ["exec", "query", "sudo", "migrate"], ["instantiate", "query", "sudo", "migrate", "reply"]):
+        fxs.append(dict(mod="fx_ep_" + "_".join(sub), feature="g_ep2", contract="Ep" + "".join(x.title() for x in sub), override=list(sub), tier="thorough"))
     return fxs
 
 
